@@ -8,8 +8,9 @@ Open Scope nat_scope.
 
 (* generic: over closed tables, for ANY dataset stack (wrappers, subsets, concats, interleaved concats, roots with
    collators) over ANY transform trees and whatever the inherited slots hold: after worker_init every generator that
-   samples or batches of the stack can draw from is Wrk j - seeded from the j-th draw this hook made from the
-   worker's own global RNG, k <= j < k' - none is still the copy inherited from the parent process *)
+   samples or batches of the stack can draw from is worker-derived: Wrk j - seeded from the j-th draw this hook made
+   from the worker's own global RNG, k <= j < k' - or (the wrappers' own draws without a seed: MUGS, mix) one of the
+   worker's process-global generators; none is still the copy inherited from the parent process, none is OS entropy *)
 Theorem after_worker_init_no_copied_slot : forall tbl ctbl wt ds,
     forallb (closed tbl) tbl = true ->
     forallb (closed ctbl) ctbl = true ->
@@ -17,9 +18,23 @@ Theorem after_worker_init_no_copied_slot : forall tbl ctbl wt ds,
     dsclosed ds = true ->
     forall s, swf tbl ctbl wt s = true -> fwd_known ds s = true ->
     forall k q, In q (stack_draws tbl ctbl wt (snd (worker_init tbl ctbl wt ds k s))) ->
-                is_wrk_in k (fst (worker_init tbl ctbl wt ds k s)) q = true.
+                worker_derived k (fst (worker_init tbl ctbl wt ds k s)) q = true.
 Proof. exact after_worker_init_no_copied_slot_proof. Qed.
 Print Assumptions after_worker_init_no_copied_slot.
+
+(* every generator OBJECT (transform slots at any depth, per-view transforms, collators) that can be drawn from
+   afterwards was created by this hook from the worker's global RNG *)
+Theorem after_worker_init_slots_are_fresh : forall tbl ctbl wt ds,
+    forallb (closed tbl) tbl = true ->
+    forallb (closed ctbl) ctbl = true ->
+    forallb (wiclosed tbl) wt = true ->
+    dsclosed ds = true ->
+    forall s, swf tbl ctbl wt s = true -> fwd_known ds s = true ->
+    forall k q, In q (stack_draws tbl ctbl wt (snd (worker_init tbl ctbl wt ds k s))) ->
+                (forall g, q <> Glob g) ->
+                is_wrk_in k (fst (worker_init tbl ctbl wt ds k s)) q = true.
+Proof. exact after_worker_init_slots_are_fresh_proof. Qed.
+Print Assumptions after_worker_init_slots_are_fresh.
 
 (* the streams are a function of the worker's seed: two copies of the same stack (same shape, arbitrary different
    slot contents - e.g. the copies of two workers, or of one worker in two runs) consume the same number of global
@@ -53,6 +68,22 @@ Theorem worker_seed_owned_by_one_unit : forall tbl ctbl wt ds,
 Proof. exact worker_seed_owned_by_one_unit_proof. Qed.
 Print Assumptions worker_seed_owned_by_one_unit.
 
+(* the same WITHOUT the `inherited` premise, over closed wrapper / dataset tables: whatever the slots held before
+   (inherited copies, generators of an earlier worker_init, per-item generators injected by a seeded wrapper) *)
+Theorem worker_seed_owned_by_one_unit_any_start : forall tbl ctbl wt ds,
+    forallb (closed tbl) tbl = true ->
+    forallb (closed ctbl) ctbl = true ->
+    forallb (wiclosed tbl) wt = true ->
+    dsclosed ds = true ->
+    forall s, swf tbl ctbl wt s = true -> fwd_known ds s = true ->
+    forall k,
+      let r := worker_init tbl ctbl wt ds k s in
+      (forall j, owners j (stack_units tbl ctbl wt (snd r)) <= 1)
+      /\ (forall u, In u (stack_units tbl ctbl wt (snd r)) -> forall j, In (Wrk j) u ->
+                    k <= j /\ j < fst r /\ forall q, In q u -> q = Wrk j).
+Proof. exact worker_seed_owned_by_one_unit_any_start_proof. Qed.
+Print Assumptions worker_seed_owned_by_one_unit_any_start.
+
 (* the tables generated from today's sources are closed *)
 Theorem wrapper_table_wi_closed : forallb (wiclosed rng_table) wrp_table = true.
 Proof. exact wrapper_table_wi_closed_proof. Qed.
@@ -70,7 +101,7 @@ Print Assumptions dataset_table_closed.
 Theorem shipped_no_copied_slot : forall s,
     swf rng_table col_table wrp_table s = true -> fwd_known ds_table s = true ->
     forall k q, In q (stack_draws rng_table col_table wrp_table (snd (worker_init rng_table col_table wrp_table ds_table k s))) ->
-                is_wrk_in k (fst (worker_init rng_table col_table wrp_table ds_table k s)) q = true.
+                worker_derived k (fst (worker_init rng_table col_table wrp_table ds_table k s)) q = true.
 Proof.
   exact (after_worker_init_no_copied_slot_proof rng_table col_table wrp_table ds_table
            table_closed_proof collator_table_closed_proof wrapper_table_wi_closed_proof dataset_table_closed_proof).
@@ -103,6 +134,19 @@ Proof.
 Qed.
 Print Assumptions shipped_worker_seed_owned_by_one_unit.
 
+Theorem shipped_worker_seed_owned_by_one_unit_any_start : forall s,
+    swf rng_table col_table wrp_table s = true -> fwd_known ds_table s = true ->
+    forall k,
+      let r := worker_init rng_table col_table wrp_table ds_table k s in
+      (forall j, owners j (stack_units rng_table col_table wrp_table (snd r)) <= 1)
+      /\ (forall u, In u (stack_units rng_table col_table wrp_table (snd r)) -> forall j, In (Wrk j) u ->
+                    k <= j /\ j < fst r /\ forall q, In q u -> q = Wrk j).
+Proof.
+  exact (worker_seed_owned_by_one_unit_any_start_proof rng_table col_table wrp_table ds_table
+           table_closed_proof collator_table_closed_proof wrapper_table_wi_closed_proof dataset_table_closed_proof).
+Qed.
+Print Assumptions shipped_worker_seed_owned_by_one_unit_any_start.
+
 (* non-vacuity: ModeWrapper over a multi-view wrapper (two per-view transforms, one nested) over a subset over a semseg
    wrapper over a root with a mix collator is an instance of the generated tables, inherited, and its four units get the
    four worker seeds 0..3 *)
@@ -123,8 +167,27 @@ Example nonvacuous :
   swf rng_table col_table wrp_table s = true
   /\ fwd_known ds_table s = true
   /\ inherited rng_table col_table wrp_table s = true
-  /\ stack_units rng_table col_table wrp_table s = [[Ctor 0]; [Ctor 1]; [Ctor 2]; [Ctor 3]]
+  /\ stack_units rng_table col_table wrp_table s = [[]; [Ctor 0]; [Ctor 1]; []; [Ctor 2]; [Ctor 3]]
   /\ fst (worker_init rng_table col_table wrp_table ds_table 0 s) = 4
   /\ stack_units rng_table col_table wrp_table (snd (worker_init rng_table col_table wrp_table ds_table 0 s))
-     = [[Wrk 0]; [Wrk 1]; [Wrk 2]; [Wrk 3]].
+     = [[]; [Wrk 0]; [Wrk 1]; []; [Wrk 2]; [Wrk 3]].
+Proof. vm_compute. repeat split. Qed.
+
+(* non-vacuity of the version without `inherited`: a stack whose slots already hold worker-derived and injected
+   generators (not inherited), with an unseeded mix wrapper (its own draws come from the worker's global NumPy RNG) *)
+Example nonvacuous_any_start :
+  let s := DFwd "ModeWrapper"
+             [DWrap (WObj "KDMixWrapper" [])
+                (DWrap (WObj "XTransformWrapper"
+                          [("transform"%string, [Node "KDComposeTransform" None
+                                                   [("transforms"%string, [Node "KDRandomCrop" (Some (Wrk 7)) [];
+                                                                            Node "KDRandomHorizontalFlip" (Some (Inj 3%Z)) []])]])])
+                   (DRoot [Node "KDMixCollator" (Some (Wrk 7)) []]))] in
+  swf rng_table col_table wrp_table s = true
+  /\ fwd_known ds_table s = true
+  /\ inherited rng_table col_table wrp_table s = false
+  /\ stack_units rng_table col_table wrp_table s = [[Glob GNumpy]; []; [Wrk 7; Inj 3%Z]; [Wrk 7]]
+  /\ stack_units rng_table col_table wrp_table (snd (worker_init rng_table col_table wrp_table ds_table 0 s))
+     = [[Glob GNumpy]; []; [Wrk 0; Wrk 0]; [Wrk 1]]
+  /\ forallb (worker_derived 0 2) (stack_draws rng_table col_table wrp_table (snd (worker_init rng_table col_table wrp_table ds_table 0 s))) = true.
 Proof. vm_compute. repeat split. Qed.
